@@ -154,6 +154,24 @@ func runC18(rec *vk.Rec, ci int) {
 	filters := [][]string{{"a"}, {"a", "b"}, {"a", "b", "c"}, {"a", "+"}, {"+", "b"}, {"b"}, {"b", "a"}, {"a", "c"}}
 	watchable := [][]string{{"a"}, {"a", "b"}, {"b"}}
 	queryable := [][]string{{"a"}, {"a", "b"}, {"a", "b", "c"}, {"b"}, {"b", "a"}, {"a", "c"}, {"x"}}
+	// in two cases of three the level names are words the broker itself uses for its system channels (ordinary channels may
+	// be called presence/lobby/ or a/keygen/ like any other)
+	rename := map[string]string{}
+	switch ci % 3 {
+	case 1:
+		rename = map[string]string{"a": "presence", "c": "keygen"}
+	case 2:
+		rename = map[string]string{"b": "presence", "c": "emitter", "x": "link"}
+	}
+	for _, l := range [][][]string{filters, watchable, queryable} {
+		for _, lv := range l {
+			for i := range lv {
+				if n, ok := rename[lv[i]]; ok {
+					lv[i] = n
+				}
+			}
+		}
+	}
 	live := func() []*c18Conn {
 		var l []*c18Conn
 		for _, c := range conns {
